@@ -388,7 +388,8 @@ def allFeq (a b : List FTok) : Bool :=
 /-- Equality and similarity of `f64` tensors under the element type's own (non-reflexive) `==`:
     the specification evaluated with that relation (same shape and every cell `==`; some
     ordering of the right operand's names with that property).  There is no code-shaped model
-    for this section: the model's theorems assume lawful element equality. -/
+    The code-shaped model answers with `tensorEqualityBy` / `tensorSimilarityBy` at the same
+    relation (theorems `eqBy_iff`, `eqBy_self_iff`, `similarBy_iff` are for any relation). -/
 def fcmp (l r : Tensor String FTok) : String :=
   let sl := Spec.materialise (Spec.ofData l.shape l.data)
   let lr := Spec.ofData r.shape r.data
@@ -397,7 +398,8 @@ def fcmp (l r : Tensor String FTok) : String :=
   let sim := (Spec.perms (r.shape.map (·.1))).any fun names =>
     decide (Spec.shapeFor r.shape names = l.shape) &&
       allFeq (Spec.materialise (Spec.reordered lr names)).elems sl.elems
-  s!"eq={eq} sim={sim}"
+  both s!"eq={eq} sim={sim}"
+       s!"eq={tensorEqualityBy FTok.feq l.view r.view} sim={tensorSimilarityBy FTok.feq l.view r.view}"
 
 def step (s : State) (toks : List String) : State × String :=
   match toks with
